@@ -20,7 +20,7 @@ if not ok:
 ok, out = ck.genmodel()
 if not ok:
     broken.append(("genmodel", out[-3000:]))
-ok, out = ck.coq_make(["Model/C12_Check.vo", "Proofs/C12.vo"])
+ok, out = ck.coq_make(["Model/C12_Check.vo", "Proofs/C12.vo", "Proofs/C12_Spec.vo"])
 if not ok:
     ck.violation("coq-model-broken", "Coq model of C12 does not compile (translation of lintcmd/cmd.go failed?)",
                  {"log": out[-3000:], "broken": broken}, no_input=True)
@@ -193,10 +193,13 @@ for i, diffs in Vs:
     if "DMerged" in diffs:
         what += "mergeRuns kept/dropped the wrong problems for %d runs; " % len(c["Runs"] or [])
     if any(d.startswith("DPrinted") for d in diffs):
-        what += "printed problems (position, end, category, message, build names) differ from one line per problem with exactly its build names: printed %s, expected %s" % (
-            json.dumps(list(obs.values())[0])[:400], json.dumps(exp)[:400])
-    rerun = "/verif/bin/hc12 -out /dev/stdout -work /tmp -pool %s -staticcheck /verif/bin/staticcheck-c12" % c["Note"].strip("[]").replace(" ", ",") \
-        if c["Kind"].endswith("directed") else "VERIF_SEED=%d ./check C12 (case %d)" % (ck.seed, i)
+        field = list(obs)[0]
+        # project the expectation onto what that formatter shows (text: no end position; json: no build names)
+        pexp = sorted((e[0], e[1], e[2], "", 0, 0, e[6], e[7], e[8]) if field == "Text" else (e[:8] + ("",)) if field == "JSON" else e for e in exp)
+        what += "printed problems (file, line, column, end, category, message, build names; %s) differ from one line per problem with exactly its build names: printed %s, expected %s" % (
+            {"Full": "text+json", "Text": "-f text", "JSON": "-f json"}[field], json.dumps(obs[field])[:400], json.dumps(pexp)[:400])
+    rerun = "(cd %s && go build -tags verif -o /tmp/sc ./cmd/staticcheck) && (cd /verif/harness && go build -tags verif -o /tmp/hc12 ./cmd/hc12) && /tmp/hc12 -out /dev/stdout -work /tmp -pool %s -staticcheck /tmp/sc" % (REPO, c["Note"].strip("[]").replace(" ", ",")) \
+        if c["Kind"].endswith("directed") else "VERIF_SEED=%d ./check C12 --tier %s (case %d)" % (ck.seed, ck.tier, i)
     ck.violation(key_of(c), what, {"case_index": i, "case": c, "expected_views": exp, "observed": obs, "diffs": diffs, "rerun": rerun,
                                    "broken_obligations": [b[0] for b in broken]})
     reported += 1
